@@ -14,6 +14,8 @@ import traceback
 VERIF = os.path.dirname(os.path.dirname(os.path.abspath(__file__)))
 REPO = os.environ.get('VERIF_REPO', '/repo')
 VENV_PY = os.environ.get('VERIF_VENV_PY', '/venv/bin/python')
+# VERIF_OUT redirects evidence / replays (used when the checks are run against a seeded scratch tree)
+OUT = os.environ.get('VERIF_OUT', VERIF)
 
 EXIT_OK, EXIT_VIOLATION, EXIT_HARNESS = 0, 1, 3
 
@@ -208,7 +210,7 @@ def run_property(modname, tier, seed, nproc=16, only=None):
     known = load_known(prop)
     violations = []
     known_hits = []
-    os.makedirs(os.path.join(VERIF, 'replays', prop), exist_ok=True)
+    os.makedirs(os.path.join(OUT, 'replays', prop), exist_ok=True)
     items = [dict(module=modname, fn=c['fn'], params=c.get('params', {}), model=m or {}) for (c, l, m, d) in candidates]
     rep_py = concrete_batch(items, no_cython=True)
     rep_cy = concrete_batch(items, no_cython=False)
@@ -226,7 +228,7 @@ def run_property(modname, tier, seed, nproc=16, only=None):
                                       f"({detail}; replay: {r1.get('error')})")
             continue
         h = hashlib.sha1(json.dumps([key, model], sort_keys=True).encode()).hexdigest()[:12]
-        path = os.path.join(VERIF, 'replays', prop, f"{h}.json")
+        path = os.path.join(OUT, 'replays', prop, f"{h}.json")
         with open(path, 'w') as f:
             json.dump(dict(property=prop, key=key, module=modname, fn=case['fn'], params=_jsonable(case.get('params', {})),
                            model=model, symbolic_detail=detail, concrete_failures_pure_python=r1.get('failures'),
@@ -295,8 +297,8 @@ def run_property(modname, tier, seed, nproc=16, only=None):
         },
         'assumptions': getattr(mod, 'ASSUMPTIONS', []),
     }
-    os.makedirs(os.path.join(VERIF, 'evidence'), exist_ok=True)
-    with open(os.path.join(VERIF, 'evidence', f"{prop}.json"), 'w') as f:
+    os.makedirs(os.path.join(OUT, 'evidence'), exist_ok=True)
+    with open(os.path.join(OUT, 'evidence', f"{prop}.json"), 'w') as f:
         json.dump(ev, f, indent=1, default=str)
 
     seen = set()
